@@ -133,7 +133,9 @@ TransmitFin(ch) ==
 
 \* TLS: the server's stack emits a record the relay never asked for; the client consumes it only while it reads
 Noise ==
-  /\ Link = "tls" /\ noise = 0 /\ ep["SL"] # "dropped" /\ ep["CL"] # "dropped"
+  \* only while the server's side of the link is still open for writing: after it has closed that direction (close_notify,
+  \* FIN) its stack puts nothing more on the wire
+  /\ Link = "tls" /\ noise = 0 /\ ep["SL"] = "open" /\ fin[5] = 0 /\ ep["CL"] # "dropped"
   /\ noise' = 1
   /\ UNCHANGED <<absVars, sq, rq, fin, rst, ep, pump, wb, relay>>
 
@@ -243,6 +245,8 @@ WsClose(p) == Link = "ws" /\ IsLink(Src(p)) /\ "WsCloseEndsBoth" \in Dev
 SrcEof(p) ==
   /\ pump[p] = "run" /\ relay[Owner(p)] \in {"run", "grace"} /\ rq[Src(p)] = 0 /\ fin[Src(p)] = 2 /\ ~rst[Src(p)]
   /\ wb[p] = 0 \/ "CloseSkipsFlush" \in Dev
+  \* a TLS stream is read in order: the client reaches the server's end-of-stream only after the records before it
+  /\ (p = 4 /\ Link = "tls") => noise # 1
   /\ wb' = [wb EXCEPT ![p] = 0]
   /\ IF "NoSinkClose" \in Dev
        THEN UNCHANGED <<fin, ep>> /\ pump' = [pump EXCEPT ![p] = "closed"]
